@@ -718,8 +718,11 @@ def round7_helper_rules(prog: Program, rep, RID: str):
     key = "compute_flow_decomp_safe_paths:validate-before-peeling"
     if not peel:
         raise AnalysisError("compute_flow_decomp_safe_paths: the greedy decomposition was not found")
-    if val and min(c.lineno for c in val) < min(c.lineno for c in peel) and not enclosing_tests(h.node, val[0]):
-        rep.ok(RID, key, "the flow values are checked (finite, non-negative, present) before they are peeled", h.loc(val[0]))
+    from rules.common import statements_before
+    before_peel = statements_before(h.node.body, peel[0])
+    val_first = [c for c in val if any(x is c for st in before_peel for x in ast.walk(st))]
+    if val_first and not enclosing_tests(h.node, val_first[0]):
+        rep.ok(RID, key, "the flow values are checked (finite, non-negative, present) before they are peeled", h.loc(val_first[0]))
     else:
         rep.violation(RID, key, "the greedy decomposition runs on flow values nothing has validated: the peeling loop subtracts bottlenecks until nothing is left, which never "
                       "happens for an infinite or NaN value (a one-edge graph with flow inf never returns), and a missing attribute raises KeyError instead of the documented "
